@@ -76,12 +76,16 @@ def make_cases(r, tier):
             cfg = ["%s=%s" % (o["name"], lx.value_for(r, o))]
         elif fam == 1:
             cfg = lx.ws_config(r, r.choice([5, 20, 50]), aggressive=True)
-        elif fam == 2 and i % 8 == 2:
+        elif (fam == 2 and i % 8 == 2) or (fam == 3 and i % 8 == 3):       # (the second term reaches the C++ and Java programs)
             # the brace and parenthesis removers/adders all at once: the options whose mistakes change meaning silently
             v = r.choice(["remove", "add"])
             cfg = ["mod_full_brace_if=%s" % v, "mod_full_brace_for=%s" % v, "mod_full_brace_while=%s" % v, "mod_full_brace_do=%s" % v,
                    "mod_paren_on_return=%s" % r.choice(["add", "remove"]), "mod_full_paren_if_bool=%s" % r.choice(["true", "false"]),
                    "mod_remove_extra_semicolon=true", "mod_case_brace=%s" % r.choice(["add", "remove"])]
+            if r.random() < 0.6:
+                # the options that write '// ...' comments behind closing braces and #endif
+                cfg += ["mod_add_long_function_closebrace_comment=1", "mod_add_long_namespace_closebrace_comment=1", "mod_add_long_class_closebrace_comment=1",
+                        "mod_add_long_switch_closebrace_comment=1", "mod_add_long_ifdef_endif_comment=1", "mod_add_long_ifdef_else_comment=1"]
         elif fam == 2:
             cfg = c04.mod_config(r) + lx.ws_config(r, 5)
         else:
